@@ -10,6 +10,7 @@
   quiesce phase also checks the convergence conditions on the implementation's own database.
 -/
 import Resonate.Proofs.Converge
+import Resonate.Proofs.Fair
 import Resonate.Proofs.CoBasics
 import Resonate.Model.System
 import Resonate.Properties.C01
@@ -151,6 +152,37 @@ theorem sweep_restarts (env : Env) (live : List Thread) (t : Time) (b : BgState)
     (hdue : env.cfg.signalTimeout ≤ t - b.last) (hdone : bgRunningDone live b = true) (hroom : 0 < env.cfg.coroutineMaxSize) :
     (startBg env true false live t [b] 0).2.1.map (·.tid) = [bgName b.kind ++ ":" ++ toString t] := by
   simp [startBg, hdue, hdone, hroom, newThread]
+
+/-! ### … for every size of the scheduler's in-queue (the fix of finding F17) -/
+
+/-- the registry a tick leaves is one `cycleBg` of the registry it found -/
+theorem tick_registry_is_cycle (s : Sys) (t : Time) (hh : s.halted = none) (he : s.bgEnabled = true)
+    (hd : (s.apiDone && s.apiQ.isEmpty) = false) :
+    (s.tick t).1.bg = (cycleBg s.env (deliverAll s.threads (s.cq.take s.env.cfg.completionBatchSize)) t s.bg).1 := by
+  simp only [Sys.tick, hh, he, hd, cycleBg, Option.isSome_none, Bool.false_eq_true, if_false]
+
+/-- over consecutive cycles in which every registered sweep is due (the signal timeout has passed, its previous instance
+    has finished), the sweep registered at position `i` is started at cycle `i` at the latest: all five sweeps run within
+    five cycles for every in-queue size ≥ 1 (with one slot: one sweep per cycle, in rotation) -/
+theorem every_sweep_gets_its_turn (env : Env) (hmax : 0 < env.cfg.coroutineMaxSize)
+    (ts : Nat → Time) (lives : Nat → List Thread) (regs : Nat → List BgState)
+    (hstep : ∀ j, regs (j + 1) = (cycleBg env (lives j) (ts j) (regs j)).1)
+    (hdue : ∀ j, ∀ b ∈ regs j, BgDue env (lives j) (ts j) b)
+    (i : Nat) (hi : i < (regs 0).length) :
+    some ((regs 0)[i]).kind ∈ startedKinds (cycleBg env (lives i) (ts i) (regs i)).2 :=
+  Resonate.every_sweep_gets_its_turn env hmax ts lives regs hstep hdue i hi
+
+/-- an in-queue of ONE entry, five cycles one signal timeout apart, nothing live: the sweeps started are the five kinds, one per cycle -/
+example :
+    let env := defaultEnv { coroutineMaxSize := 1 }
+    let r0 : List BgState := bgOrder.map fun k => { kind := k }
+    let c0 := cycleBg env [] 1000 r0
+    let c1 := cycleBg env [] 2000 c0.1
+    let c2 := cycleBg env [] 3000 c1.1
+    let c3 := cycleBg env [] 4000 c2.1
+    let c4 := cycleBg env [] 5000 c3.1
+    [c0, c1, c2, c3, c4].map (fun c => startedKinds c.2) =
+      [[some .timeoutPromises], [some .schedulePromises], [some .timeoutLocks], [some .enqueueTasks], [some .timeoutTasks]] := by decide
 
 /-! ### non-vacuity -/
 
